@@ -196,6 +196,40 @@ let predict (c : string) (obs : string) : string * string * bool =
         else if pre "A=" then "cfg:gun-option-of-one-pool-seen-in-another"
         else "cfg:" ^ (if String.length obs > 60 then String.sub obs 0 60 else obs) in
       (want, verdict (obs = want) why, int_of_string ninst >= 1)
+  | ["shs"; spec; _mode; trials; _take] ->
+      (* one schedule shared by the instances, started by whichever calls Next first: nobody is told
+         "finished" before it ended (Model/SharedSched.v, Properties/C11_sched.v) *)
+      let fields = List.filter_map (fun kv -> match String.split_on_char '=' kv with
+          | [k; v] -> (try Some (k, int_of_string v) with _ -> None) | _ -> None) (split ' ' obs) in
+      let get k = List.assoc_opt k fields in
+      (match get "total", get "taken", get "prem", get "cb", get "nextbad", get "endbad", get "within" with
+       | Some total, Some taken, Some prem, Some cb, Some nextbad, Some endbad, Some within ->
+           let has_unl = List.exists (fun p -> String.length p >= 4 && String.sub p 0 4 = "unl:") (split '+' spec) in
+           let fin_seen = prem > 0 || cb > 0 and next_false = nextbad > 0 in
+           let ok, why =
+             if total < 0 then
+               (if not has_unl then (false, "shs:finite-schedule-reports-unknown-left")
+                else if shared_seen_ok_b (within = 1) fin_seen next_false then (true, "")
+                else if fin_seen then (false, "shs:instance-told-finished-before-the-shared-schedule-ended")
+                else (false, "shs:next-refused-before-the-shared-schedule-ended"))
+             else if not (shared_fin_ok_b (nat_of_int total) (nat_of_int taken) fin_seen next_false) then
+               (if fin_seen then (false, "shs:instance-told-finished-while-tokens-were-left")
+                else (false, "shs:next-refused-while-tokens-were-left"))
+             else if endbad > 0 then (false, "shs:drained-schedule-not-reported-finished-exactly-once")
+             else (true, "") in
+           let want = Printf.sprintf "total=%d taken=%d prem=0 cb=0 nextbad=0 endbad=0 within=%d" total taken within in
+           ((if ok then obs else want), verdict ok why, int_of_string trials >= 2)
+       | _ -> ("total=.. taken=.. prem=0 cb=0 nextbad=0 endbad=0 within=1", "BAD:shs:" ^ obs, false))
+  | ["shse"; ninst; runs; _k; _dur] ->
+      let want = Printf.sprintf "runs=%s short=0 cancel=0 err=0" runs in
+      let fields = List.filter_map (fun kv -> match String.split_on_char '=' kv with
+          | [k; v] -> (try Some (k, int_of_string v) with _ -> None) | _ -> None) (split ' ' obs) in
+      let get k = match List.assoc_opt k fields with Some v -> v | None -> 1 in
+      (* the run is far shorter than the schedule's duration: no instance may leave on "finished", the start is not cancelled *)
+      let ok = shared_seen_ok_b true (get "short" > 0 || get "cancel" > 0) false && get "err" = 0 && obs = want in
+      let why = if get "short" > 0 || get "cancel" > 0 then "shse:instance-left-or-start-cancelled-on-unfinished-shared-schedule"
+        else "shse:engine-run-failed" in
+      (want, verdict ok why, int_of_string ninst > 1)
   | ["sched"; ninst; _; _] ->
       (* running a pool over a shared built-in schedule ends without a runtime fault *)
       let why = if obs = "hang" then "sched:engine-hang"
